@@ -33,6 +33,8 @@ HARNESSES = [
     dict(name="fz_oob", src="props/oob.cpp", variant="asan", kind="fuzz", cflags=["-DVF_FUZZ", '-DVF_FUZZ_PROP="oob"']),
     dict(name="traps_asan", src="props/traps.cpp", variant="asan"),
     dict(name="formats_asan", src="props/formats.cpp", variant="asan"),
+    dict(name="threads", src="props/threads.cpp", variant="plain"),
+    dict(name="threads_tsan", src="props/threads.cpp", variant="tsan"),
 ]
 
 CHECKS = {}
@@ -444,4 +446,25 @@ CHECKS["C15"] = dict(
     floor=T(4000, 80000), nt_floor=T(2000, 40000),
     assumptions=["allocation failure is injected through a compile-time rename of malloc/calloc/realloc/free in the library objects (asan variant); allocations made by libc on the library's behalf (none today) would not be seen",
                  "per the statement, void drawing may skip work after a failed allocation; pixels inside the request are not asserted then"],
+)
+
+CHECKS["C16"] = dict(
+    level="exploration",
+    rule=("rapidcheck workloads: a pool of 1-5 source images shared read-only by all threads (bits of any format with transforms/"
+          "filters/repeat/clip/alpha maps, solid fills, gradients; each used once on the main thread before any thread starts) plus "
+          "a shared read-only 16- and 32-bit region; 2-16 barrier-started threads, each with a private destination (any writable "
+          "format, optional clip / alpha map), 0-2 private sources and a program of 3-14 requests: composite32 (all operators, "
+          "shared or private source and mask), fill_rectangles (1-8 rectangles), pixman_fill, 16/32-bit region algebra with the "
+          "shared region as an operand, composite_trapezoids / composite_triangles, glyph drawing through a thread-private glyph "
+          "cache; 25% of workloads run the same program on every thread with different data. Every workload is executed 3 times "
+          "(60 on replay). Oracles: (1) plain -O2 SIMD build: each thread's digest (destination + alpha-map bits + region results + "
+          "return values) equals that of the same program run alone on the main thread; (2) ThreadSanitizer build of library and "
+          "harness: any data-race report is a violation. Non-trivial = at least two threads, and one shared image used by at "
+          "least two of them."),
+    jobs=[dict(harness="threads", prop="threads", cases=T(1500, 20000), procs=T(4, 6), schedule_dependent=True),
+          dict(harness="threads_tsan", prop="threads", cases=T(500, 6000), procs=T(8, 10), schedule_dependent=True)],
+    floor=T(2000, 60000), nt_floor=T(500, 10000),
+    assumptions=["schedules are the operating system's, not enumerated: the digest oracle sees a race only when an interleaving that corrupts a result occurs in one of the repetitions; the ThreadSanitizer oracle is schedule-insensitive (happens-before) but needs both accesses to be executed by the workload",
+                 "the first use of every shared image is made on the main thread before the threads start (the precondition in the statement)",
+                 "image accessors are not used in this harness (they are client code)"],
 )
